@@ -37,6 +37,10 @@ structure NS where
   dirs : List Path := []         -- created in the root tmpfs (mkdirat / mknodat / MkdirAll)
   links : List (Path × String) := []
   pivoted : Bool := false
+  /-- the namespace's mounts were made private (recursively) before anything else: mount and unmount events of
+  the host's peer groups no longer propagate into it (a mount namespace created together with a user
+  namespace receives its mounts as slaves of the host's) -/
+  priv : Bool := false
 deriving DecidableEq, Repr
 
 /-- one mount remaps the positions under its attach point into itself -/
@@ -59,6 +63,7 @@ def writable (ns : NS) (p : Path) : Bool :=
   | none => false
 
 inductive Op
+  | makePrivate                                   -- mount("none", "/", NULL, MS_REC|MS_PRIVATE)
   | mountRoot                                     -- mount("tmpfs", root, "tmpfs", 0); chdir(root)
   | mkdir (p : Path)                              -- mkdirat / MkdirAll component; EEXIST tolerated
   | mknod (p : Path)
@@ -76,6 +81,7 @@ def setRo : List Mnt → Nat → Bool → List Mnt
 
 /-- kernel semantics of one step; `none` = the call fails (the launch is aborted) -/
 def applyOp (ns : NS) : Op → Option NS
+  | .makePrivate => if ns.mounts.isEmpty then some { ns with priv := true } else none
   | .mountRoot => some { ns with mounts := [⟨0, [], [], .rootTmpfs, false⟩] }
   | .mkdir p | .mknod p =>
     if ns.dirs.contains p then some ns
@@ -122,7 +128,7 @@ deriving DecidableEq, Repr
 
 /-- the whole sequence (both implementations; the raw child has no symlinks and masks) -/
 def opsFor (ms : List MSpec) (x : Extra) : List Op :=
-  [Op.mountRoot] ++ ms.flatMap opsForMount ++ [.mkdirOld, .pivot, .umountOld, .rmdirOld] ++
+  [Op.makePrivate] ++ [Op.mountRoot] ++ ms.flatMap opsForMount ++ [.mkdirOld, .pivot, .umountOld, .rmdirOld] ++
   x.symlinks.flatMap (fun l => (prefixes l.1.dropLast).map Op.mkdir ++ [Op.symlink l.1 l.2]) ++
   x.masks.map (fun m => Op.mount m.1 (if m.2 then Fs.emptyTmpfs else Fs.devnull) (!m.2) m.2) ++
   [.remountRootRo]
